@@ -56,6 +56,7 @@ type runCfg struct {
 	timeoutMs int
 	allSolver bool
 	jobs      int
+	short     map[string]bool // obligation names solved with a short budget
 }
 
 func main() {
@@ -218,7 +219,11 @@ func discharge(obls []*Obligation, cfg runCfg) {
 			defer wg.Done()
 			defer func() { <-sem }()
 			q := buildQuery(o, true)
-			o.Res = solve(q, cfg.timeoutMs, cfg.allSolver, nil, o.Kind == "cover")
+			to := cfg.timeoutMs
+			if cfg.short[o.Name] && to > 10000 {
+				to = 10000 // listed as a known finding: not expected to discharge, do not wait for the full budget
+			}
+			o.Res = solve(q, to, cfg.allSolver, nil, o.Kind == "cover")
 		}(o)
 	}
 	wg.Wait()
